@@ -183,6 +183,33 @@ fn three_way_classes(a: &[Vec<Val>], b: &[Vec<Val>], c: &[Vec<Val>]) -> Vec<QCla
     ]
 }
 
+/// composite unique index: m(a, b, v) with UNIQUE(a, b)
+fn composite_classes(rows: &[Vec<Val>]) -> Vec<QClass> {
+    let a = || col("a", 0);
+    let b = || col("b", 1);
+    let filt = |e: &E| -> Vec<Vec<Val>> { rows.iter().filter(|r| eval(e, r) == Ok(Val::Bool(true))).cloned().collect() };
+    let wrap = |x: E| ar(x, ArOp::Add, int(0));
+    let mut out = vec![];
+    let mut push = |name: String, bare: E, wrapped: E| {
+        out.push(QClass { name, expect: filt(&bare), variants: vec![format!("SELECT * FROM m WHERE {}", render(&bare)), format!("SELECT * FROM m WHERE {}", render(&wrapped)), format!("SELECT * FROM m WHERE {} AND v = v", render(&bare))] });
+    };
+    for c in [0i128, 1, 3, 9] {
+        for (op, sym) in [(CmpOp::Eq, "="), (CmpOp::Le, "<="), (CmpOp::Lt, "<"), (CmpOp::Ge, ">="), (CmpOp::Gt, ">")] {
+            // bound on the NON-leading column only
+            push(format!("b {sym} {c}"), cmp(b(), op, int(c)), cmp(wrap(b()), op, int(c)));
+            // bound on the leading column only
+            push(format!("a {sym} {c}"), cmp(a(), op, int(c)), cmp(wrap(a()), op, int(c)));
+            // leading column pinned, second column bounded
+            for a0 in [0i128, 2] {
+                push(format!("a = {a0} AND b {sym} {c}"), and(cmp(a(), CmpOp::Eq, int(a0)), cmp(b(), op, int(c))), and(cmp(wrap(a()), CmpOp::Eq, int(a0)), cmp(wrap(b()), op, int(c))));
+            }
+            // leading column bounded, second pinned
+            push(format!("a {sym} 1 AND b = {c}"), and(cmp(a(), op, int(1)), cmp(b(), CmpOp::Eq, int(c))), and(cmp(wrap(a()), op, int(1)), cmp(wrap(b()), CmpOp::Eq, int(c))));
+        }
+    }
+    out
+}
+
 fn rows_match(got: &[Vec<Val>], want: &[Vec<Val>]) -> bool {
     if got.len() != want.len() {
         return false;
@@ -247,6 +274,9 @@ pub fn run_once(p: &PlanParams, hist: &[usize]) -> StepReport {
         if let Some(q_rows) = committed(&ex.model, "q") {
             classes.extend(join_classes(&p_rows, &q_rows));
         }
+    }
+    if let Some(m_rows) = committed(&ex.model, "m") {
+        classes.extend(composite_classes(&m_rows));
     }
     if let (Some(a), Some(b), Some(c)) = (committed(&ex.model, "a"), committed(&ex.model, "b"), committed(&ex.model, "c")) {
         classes.extend(three_way_classes(&a, &b, &c));
